@@ -58,6 +58,8 @@ func main() {
 		fmt.Fprintln(os.Stderr, "-out required")
 		os.Exit(2)
 	}
+	os.MkdirAll(*out, 0o755)
+	currentCaseDir = *out
 	w := NewCaseWriter(cmd, *out, p.mod)
 	p.gen(*tier, NewRNG(*seed), w)
 	if err := w.Flush(); err != nil {
